@@ -28,6 +28,8 @@ class Interactor:
         self.fn = fn
         self.accumulators = accumulators or defaultdict(list)
         self.to_close = []
+        # The proceed() context this interactor was made for, if any
+        self.context = None
 
     def register(self, acc, captures, close_at_exit):
         """Register an accumulator for a certain set of captures.
@@ -73,6 +75,10 @@ class Interactor:
         if key is not None:
             varname = key.affix_to(varname)
 
+        if varname == "#receive" and self.context is not None:
+            # The generator has just been resumed
+            self.context.resume()
+
         with self.work_on(varname, key, category) as wfr:
             fr_value = wfr.intercept(value)
             if fr_value is not ABSENT:
@@ -87,6 +93,10 @@ class Interactor:
 
             wfr.log(value)
             wfr.trigger()
+
+        if varname == "#yield" and self.context is not None:
+            # The generator is about to be suspended
+            self.context.suspend()
 
         return value
 
